@@ -262,6 +262,12 @@ def run(pid, tier):
         mc_thread.join()
         if sweep:
             sweep.shutdown()
+    # the replay file keeps the first 200 violations: put up to 40 of every kind in front
+    per, front, rest = collections.Counter(), [], []
+    for k, d in rep.viol:
+        per[k] += 1
+        (front if per[k] <= 40 else rest).append((k, d))
+    rep.viol = front + rest
     attach_reports(rep)
     rep.cov['notes'] = notes
     rep.cov['exhaustive'] = True
